@@ -18,6 +18,10 @@ func init() {
 }
 
 func runC13(p *Prog, r *Report) {
+	if want("C13.20") {
+		// entry headers are uvarints; a raw length byte only where that length < 0x80
+		ruleEntryHeaderEncoding(p, r, "C13.20")
+	}
 	if want("C13.19") {
 		// table iteration reports a block that cannot be read (shared with C02.8)
 		ruleIndexedIterator(p, r, "C13.19")
